@@ -26,6 +26,7 @@ func VerifR6UpdateAtomic() {
 	typ := zzvsym.IntRange("type", 0, vNumTypes-1)
 	vSmallAlphabet = true
 	vBase(a, typ)
+	zzvsym.Assert(a.ClearHistory() == nil, "clear-history-no-error") // an undo never removes the base content
 	s.sync(0, a)
 	s.sync(1, b)
 	s.sync(0, a)
